@@ -777,7 +777,8 @@ package app
 //@   loop 2 invariant slaves: forall i int :: in_range(i, becomeActive) ==> clusterState[becomeActive[i]] != nil && clusterState[becomeActive[i]].SlaveState != nil
 //@   loop 3 invariant slaves: forall i int :: in_range(i, becomeActive) ==> clusterState[becomeActive[i]] != nil && clusterState[becomeActive[i]].SlaveState != nil
 //@   requires c20 [safety]: statesOK(app, clusterState) && clusterState[master] != nil
-//@   requires c20list [safety]: forall i int :: in_range(i, activeNodes) ==> clusterState[activeNodes[i]] != nil && (clusterState[activeNodes[i]].SlaveState != nil || contains(oldActiveNodes, activeNodes[i]) || activeNodes[i] == master)
+//@   requires c20list [safety]: forall i int :: in_range(i, activeNodes) ==> clusterState[activeNodes[i]] != nil
+//@   requires c20slaves [safety]: forall i int :: in_range(i, activeNodes) ==> clusterState[activeNodes[i]].SlaveState != nil || contains(oldActiveNodes, activeNodes[i]) || activeNodes[i] == master
 //@ func (*app.App).updateActiveNodes
 //@   requires c20 [safety]: statesOK(app, clusterState) && statesOK(app, clusterStateDcs) && clusterState[master] != nil && optOK(app)
 //@ func (*app.App).canShrinkActiveNodes
@@ -878,3 +879,14 @@ package app
 //@   ensures C20.convert_nonnil [C20]: forall i int :: in_range(i, result) ==> result[i] != nil
 //@ func app.NewOfflineModeFilter
 //@   requires c20 [safety]: cfg != nil && logger != nil
+//@ func (*app.App).calcActiveNodes
+//@   ensures C20.members_known [C20]: err == nil ==> (forall i int :: in_range(i, activeNodes) ==> has(clusterState, activeNodes[i]) && (clusterState[activeNodes[i]].SlaveState != nil || contains(oldActiveNodes, activeNodes[i]) || activeNodes[i] == master))
+// external channel: the repair algorithms are reached only for a host whose external channel reported a status
+//@ define extReady(app *App, node *mysql.Node, channel string) = channel == app.config.ExternalReplicationChannel ==> hastype(app.externalReplication, "*mysql.ExternalReplication") && extSup(unbox(app.externalReplication, "*mysql.ExternalReplication"), node.host)
+//@ func (*app.App).TryRepairReplication
+//@   requires ext [safety]: extReady(app, node, channel)
+//@ func app.ChangeSourceAlgorithm
+//@   requires ext [safety]: extReady(app, node, channel)
+// configuration assumption (defaults "" and "external"; not validated by Config.Validate): the two channels differ
+//@ func (*app.App).repairSlaveNode
+//@   requires channels [config]: app.config.ReplicationChannel != app.config.ExternalReplicationChannel
